@@ -6,8 +6,8 @@ import (
 
 	"github.com/deadsy/sdfx/sdf"
 	v2 "github.com/deadsy/sdfx/vec/v2"
-	v3 "github.com/deadsy/sdfx/vec/v3"
 	"github.com/deadsy/sdfx/vec/v2i"
+	v3 "github.com/deadsy/sdfx/vec/v3"
 	"github.com/deadsy/sdfx/vec/v3i"
 )
 
@@ -35,6 +35,8 @@ type N2 struct {
 	Kind  RefKind
 	Exact bool
 	Lip   bool
+	// OperandExact: the (first) operand is an exact Euclidean distance field
+	OperandExact bool
 }
 
 // N3 is a 3D expression tree node.
@@ -47,6 +49,8 @@ type N3 struct {
 	Kind  RefKind
 	Exact bool
 	Lip   bool
+	// OperandExact: the (first) operand is an exact Euclidean distance field
+	OperandExact bool
 }
 
 // LeafNodes2 / LeafNodes3 wrap the leaf menus.
@@ -307,7 +311,7 @@ type U33 struct {
 }
 
 func wrap3(c N3, name, root string, kind RefKind, exact, lip bool, build func(s sdf.SDF3) (sdf.SDF3, error), ref func(f Ev3, s sdf.SDF3) Ev3) N3 {
-	return N3{Name: name + "(" + c.Name + ")", Root: root, Depth: c.Depth + 1, Kind: kind, Exact: exact, Lip: lip,
+	return N3{Name: name + "(" + c.Name + ")", Root: root, Depth: c.Depth + 1, Kind: kind, Exact: exact, Lip: lip, OperandExact: c.Exact,
 		Build: func() (sdf.SDF3, error) {
 			s, err := c.Build()
 			if err != nil {
@@ -423,7 +427,9 @@ func Unary33() []U33 {
 		name := fmt.Sprintf("RotateUnion3D[%d x %g deg]", r.n, r.deg)
 		out = append(out, U33{name, "RotateUnion3D", func(c N3) N3 {
 			return wrap3(c, name, "RotateUnion3D", RefValue, false, c.Lip,
-				func(s sdf.SDF3) (sdf.SDF3, error) { return sdf.RotateUnion3D(s, r.n, sdf.RotateZ(sdf.DtoR(r.deg))), nil },
+				func(s sdf.SDF3) (sdf.SDF3, error) {
+					return sdf.RotateUnion3D(s, r.n, sdf.RotateZ(sdf.DtoR(r.deg))), nil
+				},
 				func(f Ev3, _ sdf.SDF3) Ev3 {
 					return func(p v3.Vec) float64 {
 						d := math.Inf(1)
@@ -515,7 +521,7 @@ type U22 struct {
 }
 
 func wrap2(c N2, name, root string, kind RefKind, exact, lip bool, build func(s sdf.SDF2) (sdf.SDF2, error), ref func(f Ev2, s sdf.SDF2) Ev2) N2 {
-	return N2{Name: name + "(" + c.Name + ")", Root: root, Depth: c.Depth + 1, Kind: kind, Exact: exact, Lip: lip,
+	return N2{Name: name + "(" + c.Name + ")", Root: root, Depth: c.Depth + 1, Kind: kind, Exact: exact, Lip: lip, OperandExact: c.Exact,
 		Build: func() (sdf.SDF2, error) {
 			s, err := c.Build()
 			if err != nil {
@@ -556,7 +562,9 @@ func Unary22() []U22 {
 		out = append(out, U22{fmt.Sprintf("ScaleUniform2D[%g]", k), "ScaleUniform2D", func(c N2) N2 {
 			return wrap2(c, fmt.Sprintf("ScaleUniform2D[%g]", k), "ScaleUniform2D", RefValue, c.Exact, c.Lip,
 				func(s sdf.SDF2) (sdf.SDF2, error) { return sdf.ScaleUniform2D(s, k), nil },
-				func(f Ev2, _ sdf.SDF2) Ev2 { return func(p v2.Vec) float64 { return k * f(v2.Vec{X: p.X / k, Y: p.Y / k}) } })
+				func(f Ev2, _ sdf.SDF2) Ev2 {
+					return func(p v2.Vec) float64 { return k * f(v2.Vec{X: p.X / k, Y: p.Y / k}) }
+				})
 		}})
 	}
 	for _, o := range []float64{0.125, -0.0625} {
@@ -610,7 +618,9 @@ func Unary22() []U22 {
 		name := fmt.Sprintf("RotateUnion2D[%d x %g deg]", r.n, r.deg)
 		out = append(out, U22{name, "RotateUnion2D", func(c N2) N2 {
 			return wrap2(c, name, "RotateUnion2D", RefValue, false, c.Lip,
-				func(s sdf.SDF2) (sdf.SDF2, error) { return sdf.RotateUnion2D(s, r.n, sdf.Rotate2d(sdf.DtoR(r.deg))), nil },
+				func(s sdf.SDF2) (sdf.SDF2, error) {
+					return sdf.RotateUnion2D(s, r.n, sdf.Rotate2d(sdf.DtoR(r.deg))), nil
+				},
 				func(f Ev2, _ sdf.SDF2) Ev2 {
 					return func(p v2.Vec) float64 {
 						d := math.Inf(1)
